@@ -90,6 +90,8 @@ fn main() {
         #[cfg(feature = "full")]
         "c06" => realwire::run_c06(&cfg),
         #[cfg(feature = "full")]
+        "c05-real" => realwire::run_c05_real(&cfg),
+        #[cfg(feature = "full")]
         "c07" => realwire::run_c07(&cfg),
         #[cfg(feature = "full")]
         "c12b" => realwire::run_c12b(&cfg),
